@@ -179,6 +179,22 @@ CLAIMS = {
         note=BOUNDED_NOTE + "Model family: <= 11 elements, 1..2 delegation ids; pooled delegations are not in the family.",
         technique="contracts on the real partitioning functions checked by bounded symbolic execution over the bounded graph model",
         design_ref="DESIGN.md section 3 C13"),
+    'C02': dict(category='other',
+        text="Per sliver kind (node, component, service, interface, link) and PER SETTABLE PROPERTY the real *_sliver_to_graph_"
+             "properties_dict / *_sliver_from_graph_properties_dict pair is executed symbolically on a named sliver carrying a typed "
+             "symbolic value of that property: the rebuilt sliver equals the original field by field (an object without any value may "
+             "read back as absent, as JSONField documents) and the graph key written is the one SLIVER_PROPERTY_TO_GRAPH names, so "
+             "unset removes what set wrote. Nested slivers (component / service / interface / sub-interface, node-level service) go "
+             "through the real JSONSliver text form and through add_network_node_sliver + build_deep_node_sliver on a model graph and "
+             "come back with the same structure and values. On elements built through the topology API set_property / get_property / "
+             "unset_property read back equal, then absent (node, component, service, interface).",
+        note=TOPO_NOTE + "One settable property at a time (not combinations); management_ip (ipaddress), maintenance_info, "
+             "image_type alone, and the two delegation properties are not covered; the stored image reference is '<ref>,<type>' and "
+             "the type is assumed to contain no comma; enum-valued properties take their first three members; JSON blob properties "
+             "one fixed document; element level: one representative value per listed property; link elements not covered.",
+        technique="contracts on the real conversion functions checked by bounded symbolic execution (per-property symbolic values, "
+                  "z3 + cvc5 for string obligations), every path re-run on CPython",
+        design_ref="DESIGN.md section 3 C02"),
     'C14': dict(category='other',
         text="The real merge_adm / unmerge_adm / _update_node_delegations / snapshot / rollback bodies run through the abstract graph "
              "interface on the in-memory shared store (combined-model handle backed by the NetworkX back end): two delegation models "
